@@ -225,3 +225,34 @@ def _(c):
                 c.scenario(f"{exc}-at-unit-{pos}-{key}", pre)
     c.raises("True", label="the-exception-reaches-the-caller")
     c.on_raise("gstate(us, up, ut) == old(gstate(us, up, ut))", "tables-as-before-the-aborted-registration")
+
+
+# ---- object lifetime: the object of a scope that has ended (or whose registration failed) may be released by CPython at ANY later
+#      moment -- also while a later scope that registered the same symbols is open.  `release` (pyvc/models/lifetime.py) runs the
+#      class's finaliser, if it has one, at the point the scenario chooses; the later scope keeps its units and still ends cleanly ------
+def _released(b, env, first_failed):
+    rel = b.model("lifetime", "release")
+    snap = b.call(_snapshot_fn(b), env["us"], env["up"], env["ut"])
+    if first_failed:
+        first = b.obj(UE)
+        b.call_catching(b.getattr(first, "__init__"), b.dict({"x1": unit(b, "x1", definition=b.glob("units/unit_types.py::UnitType")), "m": unit(b, "m")}))
+    else:
+        first = b.new(UE, b.dict({"x1": unit(b, "x1", definition=b.glob("units/unit_types.py::UnitType")), "x2": unit(b, "x2")}))
+        b.call(b.getattr(first, "close"))
+    second = b.new(UE, b.dict({"x1": unit(b, "x1b", definition=b.glob("units/unit_types.py::UnitType")), "y1": unit(b, "y1")}))
+    env["g0"] = snap
+    return rel, first, second
+
+
+@contract(UE + ".close", ["C09"], name="UnitEnvironment.close[after-an-ended-scope-was-released]")
+def _(c):
+    for ff in (False, True):
+        def pre(b, ff=ff):
+            env = _env(b)
+            rel, first, second = _released(b, env, ff)
+            b.call(rel, first)
+            return dict(args=[second], env=env)
+        c.scenario("first-scope-" + ("failed-part-way" if ff else "closed"), pre)
+    c.ensures("old('x1' in us._keys and 'y1' in us._keys and len(list(ut)) == len(g0[3]) + 1)", "the-open-scope's-units-and-type-were-still-registered-after-the-release")
+    c.ensures("gstate(us, up, ut) == g0", "tables-identical-to-before-both-scopes")
+    c.no_raise()
